@@ -7,6 +7,7 @@
 //! evaluated by vm_compute) and, independently, with a brute-force SQL reference in this binary.
 //! The action table is covered exhaustively on a micro table (`chk_action`).
 mod ast;
+mod dbg;
 mod e2e;
 mod micro;
 mod refsql;
@@ -34,10 +35,14 @@ fn main() {
     let mut act = Stream::new("action_table", REQ, "chk_action", "msettings * (option row * option row)", "N");
     let mut mic = Stream::new("merge_micro", REQ, "chk_merge", "ctable * (list row * (msettings * bexpr))", "(observation * (N * N * N)) + N");
     for s in [&mut ss.del, &mut ss.upd, &mut ss.mrg, &mut mic] {
-        s.shard = 60;
+        s.shard = 40;
     }
     let rt = tokio::runtime::Builder::new_multi_thread().worker_threads(4).enable_all().build().unwrap();
     let only = args.rest.iter().position(|a| a == "--only").and_then(|i| args.rest.get(i + 1)).cloned();
+    if only.as_deref() == Some("dbg") {
+        rt.block_on(dbg::run());
+        return;
+    }
     rt.block_on(async {
         if only.as_deref() != Some("e2e") {
             specials::run(&mut sink, &mut ss).await;
@@ -45,8 +50,12 @@ fn main() {
         }
         if only.as_deref() != Some("micro") {
             let tables = args.vol(14, 120);
+            let only_table: Option<usize> = args.rest.iter().position(|a| a == "--table").and_then(|i| args.rest.get(i + 1)).and_then(|x| x.parse().ok());
             for ti in 0..tables {
                 let mut r = rng.fork();
+                if only_table.is_some() && only_table != Some(ti) {
+                    continue;
+                }
                 let nops = r.range(5, 9) as usize;
                 e2e::one_table(&mut sink, &mut ss, &mut r, ti, nops).await;
             }
